@@ -122,7 +122,7 @@ structure CovModel where
   covNames : List String
   /-- the covariate model's `_parameter_names` -/
   stored : List String
-  deriving Repr
+  deriving Repr, DecidableEq
 
 /-- the index list the constructor builds: dimension-major -/
 def ctorIndices (perDim nDim : Nat) : List Pair :=
@@ -157,36 +157,104 @@ def CovModel.parameterNames (m : CovModel) (excludeDim : Bool) : List String :=
 
 def CovModel.nParameters (m : CovModel) : Nat := m.perDim * m.nDim + m.nCov * m.sel.length
 
+inductive CovErr | valueError
+  deriving Repr, DecidableEq
+
+/-- `set_parameter_names(names)`: the first `n_pop` entries go to the population model (raw names,
+    the dimension suffix is appended on reading), the rest to the covariate model -/
+def CovModel.setNames (m : CovModel) (pop beta : List String) : CovModel :=
+  { m with baseNames := pop, stored := beta }
+
+/-- `set_parameter_names(None)` (since `51b4854`): the population model's defaults, and β names
+    recomputed from them for the STORED selection -/
+def CovModel.resetNames (m : CovModel) (defaults : List String) : CovModel :=
+  { m with baseNames := defaults,
+           stored := selNames m.nDim m.nCov m.sel (popFullNames m.nDim defaults m.dimNames) }
+
 inductive CovOp
   | setPop (indices : List Pair)
   | setDimNames (names : List String)
+  /-- `set_n_ids(n)` -/
+  | setNIds (n : Nat)
+  /-- `set_parameter_names(names)` split at `n_pop` -/
+  | setNames (pop beta : List String)
+  /-- `set_parameter_names(None)`; `defaults` = the population model's default names -/
+  | resetNames (defaults : List String)
   deriving Repr
 
+/-- one configuration call on a wrapper whose wrapped model's parameter count does not depend
+    on `n_ids` (every kind but the heterogeneous one): `set_n_ids` changes nothing here -/
 def CovModel.step (m : CovModel) : CovOp → CovModel
   | .setPop ix => m.setPop false ix
   | .setDimNames ns => m.setDimNames ns
+  | .setNIds _ => m
+  | .setNames pop beta => m.setNames pop beta
+  | .resetNames d => m.resetNames d
 
-/-! ### `set_n_ids` around a `HeterogeneousModel` (one parameter row per individual)
-
-`CovariatePopulationModel.set_n_ids` forwards to the wrapped model — whose parameter table then
-has `n` rows — but keeps its own split point `_n_pop`, the selection and the β names. -/
+/-! ### a wrapped `HeterogeneousModel` (one parameter row per individual): `set_n_ids` changes the
+    parameter table -/
 
 /-- default names of a heterogeneous model with `n` individuals: `'ID k'` repeated `n_dim` times -/
 def hetBaseNames (n nDim : Nat) : List String :=
   (List.range n).flatMap (fun k => List.replicate nDim ("ID " ++ toString (k + 1)))
 
-/-- wrapper state that matters here: bookkeeping + the split point `_n_pop` -/
+/-- wrapper state that matters here: bookkeeping, the split point `_n_pop`, and whether the
+    selection is still the constructor's "all parameters" (`_all_selected`) -/
 structure CovHet where
   m : CovModel
   nPopSplit : Nat
-  deriving Repr
+  allSelected : Bool
+  deriving Repr, DecidableEq
 
 def CovHet.construct (n nDim nCov : Nat) (dimNames covNames : List String) : CovHet :=
-  ⟨CovModel.construct n nDim nCov (hetBaseNames n nDim) dimNames covNames, n * nDim⟩
+  ⟨CovModel.construct n nDim nCov (hetBaseNames n nDim) dimNames covNames, n * nDim, true⟩
 
-/-- the code as it is -/
-def CovHet.setNIds (h : CovHet) (n : Nat) : CovHet :=
+/-- `set_population_parameters` marks the selection as the user's -/
+def CovHet.setPop (h : CovHet) (indices : List Pair) : CovHet :=
+  { h with m := h.m.setPop false indices, allSelected := false }
+
+/-- `set_n_ids(n)` — the code as it is (since `ec83423`). Nothing happens when the parameter count
+    does not change. Otherwise the wrapped model gets `n` rows with default names, the split
+    point follows, and the selection is re-established through `set_population_parameters`:
+    every pair if the user never selected (`_all_selected`, which is PRESERVED), the stored
+    selection if all of it still exists; if not, `ValueError` and nothing changes. -/
+def CovHet.setNIds (h : CovHet) (n : Nat) : Except CovErr CovHet :=
+  if n * h.m.nDim = h.m.perDim * h.m.nDim then .ok h
+  else
+    let indices : Option (List Pair) :=
+      if h.allSelected then some (flatPairs n h.m.nDim)
+      else if h.m.sel.all (fun x => decide (x.1 < n)) then some h.m.sel
+      else none
+    match indices with
+    | none => .error .valueError
+    | some ix =>
+      let m1 : CovModel := { h.m with perDim := n, baseNames := hetBaseNames n h.m.nDim }
+      .ok ⟨m1.setPop false ix, n * h.m.nDim, h.allSelected⟩
+
+/-- before `ec83423`: the wrapped model got its `n` rows, the wrapper kept `_n_pop`, selection and
+    β names (kept for `C07_set_n_ids_counterexample`) -/
+def CovHet.setNIdsLegacy (h : CovHet) (n : Nat) : CovHet :=
   { h with m := { h.m with perDim := n, baseNames := hetBaseNames n h.m.nDim } }
+
+/-- one configuration call; a raising call leaves the state as it was -/
+def CovHet.step (h : CovHet) : CovOp → Except CovErr CovHet
+  | .setPop ix => .ok (h.setPop ix)
+  | .setDimNames ns => .ok { h with m := h.m.setDimNames ns }
+  | .setNIds n => h.setNIds n
+  | .setNames pop beta => .ok { h with m := h.m.setNames pop beta }
+  | .resetNames _ => .ok { h with m := h.m.resetNames (hetBaseNames h.m.perDim h.m.nDim) }
+
+/-- what a raising `set_n_ids` leaves behind — the code as it is: the wrapped model is put back
+    with `set_n_ids(n_before)`, and a `HeterogeneousModel` resets ITS parameter names to the
+    defaults whenever its size changes, so user-chosen population names are lost (selection, β
+    names, counts and split point are as before). `C07_set_n_ids_raise_counterexample`. -/
+def CovHet.afterRaise (h : CovHet) : CovHet :=
+  { h with m := { h.m with baseNames := hetBaseNames h.m.perDim h.m.nDim } }
+
+def CovHet.stepKeep (h : CovHet) (o : CovOp) : CovHet :=
+  match h.step o with
+  | .ok h' => h'
+  | .error _ => h.afterRaise
 
 /-- `n_parameters()`: wrapped count + covariate-model count -/
 def CovHet.nParameters (h : CovHet) : Nat := h.m.perDim * h.m.nDim + h.m.nCov * h.m.sel.length
@@ -196,10 +264,6 @@ def CovHet.nParameters (h : CovHet) : Nat := h.m.perDim * h.m.nDim + h.m.nCov * 
     must have `n_selected · n_cov` entries) -/
 def CovHet.evaluable (h : CovHet) : Bool :=
   decide (h.nParameters - h.nPopSplit = h.m.sel.length * h.m.nCov) && decide (h.nPopSplit ≤ h.nParameters)
-
-/-- what the proposed repair does when nothing was selected by the user: as the constructor -/
-def CovHet.setNIdsIntended (h : CovHet) (n : Nat) : CovHet :=
-  CovHet.construct n h.m.nDim h.m.nCov h.m.dimNames h.m.covNames
 
 /-! ## the numeric part -/
 
@@ -251,9 +315,6 @@ def covSensAt (c : CovCfg) (nIds : Nat) (g : Nat → Nat → Nat → α) (cov : 
   if j < c.nPop then covSensPop nIds g (j / c.nDim) (j % c.nDim)
   else covSensBeta c nIds g cov ((j - c.nPop) / c.nCov) ((j - c.nPop) % c.nCov)
 
-inductive CovErr | valueError
-  deriving Repr, DecidableEq
-
 /-- the wrapped model's `compute_log_likelihood` on the tensor `(n_ids, n_per_dim, n_dim)`:
     every kind reads individual `i`'s own slice `ϑ_i`; `HeterogeneousModel` takes the diagonal
     `parameters[i, i, :]` (individual `i` ↔ row `i`, as `compute_individual_parameters` does) —
@@ -292,6 +353,26 @@ def covIndiv (k : Kind) (c : CovCfg) (nIds : Nat) (params : List α) (cov : Nat 
     let th := covTh c (vecOf params) cov
     .ok ((List.range nIds).map (fun i => (List.range c.nDim).map (fun d =>
       indiv false k nIds c.nDim th eta i d)))
+
+/-- the wrapped model's `compute_individual_parameters(..., return_eta=True)`: the models with
+    individual-level entries hand back `eta` itself (centred or not, whatever the parameters are);
+    `PooledModel` / `HeterogeneousModel` IGNORE the flag — their individual parameters are always
+    the population parameters `ϑ_i[0, ·]` resp. `ϑ_i[i, ·]` -/
+def indivEta (k : Kind) (th : Nat → Nat → Nat → α) (eta : Nat → Nat → α) (i d : Nat) : PsiVal α :=
+  match k with
+  | .pooled => .val (th i 0 d)
+  | .hetero => .val (th i i d)
+  | _ => .val (eta i d)
+
+/-- `CovariatePopulationModel.compute_individual_parameters(..., return_eta=True)` — the call
+    `HierarchicalLogLikelihood` / `ComposedPopulationModel` make first: `ϑ(θ, χ)` is computed and
+    the wrapped model is consulted in every case -/
+def covIndivEta (k : Kind) (c : CovCfg) (nIds : Nat) (params : List α) (cov : Nat → Nat → α)
+    (eta : Nat → Nat → α) : Except CovErr (List (List (PsiVal α))) :=
+  if params.length ≠ c.nParams then .error .valueError
+  else
+    let th := covTh c (vecOf params) cov
+    .ok ((List.range nIds).map (fun i => (List.range c.nDim).map (fun d => indivEta k th eta i d)))
 
 /-- `CovariatePopulationModel.compute_sensitivities`, `dtheta` part: the wrapped model's
     `dvartheta` (`g`, shape `(n_ids, n_per_dim, n_dim)`, `flattened=False`) pushed through the
